@@ -14,7 +14,7 @@ func vpDB() database.Database {
 
 //vp:property C14
 //vp:set k 3 4
-//vp:bounds K requests (quick 3, thorough 4) over three session identifiers (two of them differing by a trailing blank only); each request is one of {negotiate, authenticate for a 2-character user name with symbolic characters, undecodable base64, a non-NTLM byte string, empty message}; user database {"ab","ef": non-empty passwords, "cd": empty password}; the client's proof was computed from an arbitrary password of {ab's, ef's, another} under the name it sends or under ab's/ef's name, against the challenge of an arbitrary server session created so far; cached contexts may or may not expire between requests
+//vp:bounds K requests (quick 3, thorough 4) over three session identifiers (two of them differing by a trailing blank only); each request is one of {negotiate, authenticate for a 2-character user name with symbolic characters, undecodable base64, a non-NTLM byte string, empty message}; user database {"ab","ef": non-empty passwords, "cd": empty password}; the client's proof was computed from an arbitrary password of {ab's, ef's, another} under the name it sends or under ab's/ef's name, against the challenge of an arbitrary server session created so far or against the empty challenge; the library may panic while deriving session keys after it verified a proof; cached contexts may or may not expire between requests
 //vp:assume go-ntlm's ProcessAuthenticateMessage compares against the response key it derived at the session's FIRST authenticate message (fetchResponseKeys caches it) and this session's challenge; go-cache contract
 //vp:reach authenticated challenged refused
 func VP_C14_history() {
@@ -48,7 +48,7 @@ func VP_C14_history() {
 			vpProofPwId = vpInt("proof-pw-" + is) // 1: ab's password, 2: ef's password, 3: some other password
 			vpProofUserSel = vpInt("proof-user-" + is)
 			vpClientSess = vpInt("client-session-" + is)
-			vpAssume(vpAnd(vpAnd(vpProofPwId >= 1, vpProofPwId <= 3), vpAnd(vpAnd(vpProofUserSel >= 0, vpProofUserSel <= 2), vpAnd(vpClientSess >= 0, vpClientSess <= 3))))
+			vpAssume(vpAnd(vpAnd(vpProofPwId >= 1, vpProofPwId <= 3), vpAnd(vpAnd(vpProofUserSel >= 0, vpProofUserSel <= 2), vpAnd(vpClientSess >= -1, vpClientSess <= 3))))
 		case 2:
 			vpWireBad[text] = true
 		case 3:
